@@ -397,4 +397,6 @@ RULES = [
     ("C13.R3", "effect summary contains only the phase removal", r3),
     ("C13.R4", "every record is written; no early exit", r4),
 ]
-FLOORS = {"C13.R1": 2, "C13.R2": 7, "C13.R3": 5, "C13.R4": 2}
+# instance floors: about 60% of the instances confirmed by hand on the reference tree -- a rule that suddenly matches far fewer
+# sites fails the run (exit 2); a clean-up that merges two sites into one does not
+FLOORS = {"C13.R1": 1, "C13.R2": 4, "C13.R3": 3, "C13.R4": 1}
